@@ -55,7 +55,7 @@ m = {
  "setup_cmd": "bash bin/setup.sh",
  "hooks": {
    "guard": "verif",
-   "enable": "go build -tags verif -overlay .work/overlay.json (Go build tag; bin/build.sh)",
+   "enable": "go build -tags verif -overlay .work/overlay.json (Go build tag; the overlay - owned timerqueue timers and registration-ordered subscriber fan-out - is generated from /repo's current files by bin/gen_overlay.py, /repo is not touched; bin/build.sh)",
    "baseline_off_cmd": "cd /repo && GOFLAGS=-mod=mod GOPROXY=off GOSUMDB=off go test -mod=mod -vet=off -count=1 ./...",
    "source_commits": hooks_commits,
    "add_only": True,
